@@ -52,8 +52,11 @@ func UnregisterUnserializer(format formats.Format) {
 }
 
 func GetFormatUnserializer(format formats.Format) (native.Unserializer, error) {
-	if _, ok := unserializers[format]; ok {
-		return unserializers[format], nil
+	regMtx.RLock()
+	unserializer, ok := unserializers[format]
+	regMtx.RUnlock()
+	if ok {
+		return unserializer, nil
 	}
 	return nil, fmt.Errorf("no serializer registered for %s", format)
 }
